@@ -1,5 +1,7 @@
 """Shared driver of the weakly-relational checks C03 / C04 (harness c04_shapes.cc, driver pplv_wr)."""
-import collections, concurrent.futures as cf, hashlib, os, re
+import collections, concurrent.futures as cf, hashlib, os, re, sys
+if hasattr(sys, "set_int_max_str_digits"):
+    sys.set_int_max_str_digits(0)      # long double bounds have thousands of digits
 
 # type name -> translation unit of harness/c04_shapes.cc
 TU = {
@@ -107,8 +109,18 @@ def classify(lines, idx, verdict):
             op = l.split(); break
     # slots in a state where OK() is false
     tainted = {}
-    for l in lines[:idx + 1]:
+    for li, l in enumerate(lines[:idx + 1]):
         u = l.split()
+        if u[0] == "op" and kind == "bds" and u[2] in ("gen_img2", "gen_pre2") and li < idx:
+            try:
+                nn = dim_of_slot(lines, li, u[1])
+                (k1, a1), _ = parse_expr(u[4:], nn)
+                if len(nonzero(a1)) >= 2 and "SPR" in status_flags(lines, li, u[1]):
+                    tainted.setdefault(u[1], "gen_img2_stale_reduced")
+            except Exception:
+                pass
+        elif u[0] == "reset":
+            tainted.pop(u[1], None)
         if u[0] == "note" and u[1] == "okfalse":
             origin = None
             for m in reversed(lines[:lines.index(l)]):
@@ -141,6 +153,8 @@ def classify(lines, idx, verdict):
             if rr is not None and n >= 2 and any(r[0] != "=" and len(nonzero(r[2])) == 1 for r in rr):
                 tags.append("recv_unary_inequality_dim_ge_2")
             if rr is not None: tags += limit_tags(rr, tname)
+            r2x = rows_of_slot(lines, opi, op[3]) if len(op) == 4 else None
+            tags += overflow_tags([rr, r2x], op[3:], tname, cls)
             if op[1] in tainted: tags.append("operand_not_OK_after_" + tainted[op[1]])
             # the crash may come from printing the result of the op (res lines already written)
             if any(l.startswith("res " + op[1] + " ") for l in lines[opi:idx]): tags.append("crash_after_result_reported")
@@ -161,6 +175,9 @@ def classify(lines, idx, verdict):
             tags.append("no_single_direction_separates")
         recv_rows = rows_of_slot(lines, idx, t[1])
         if recv_rows is not None and len(recv_rows) == 0: tags.append("universe_receiver")
+        if recv_rows is not None:
+            tags += limit_tags(recv_rows, tname)
+            tags += overflow_tags([recv_rows], t[3:], tname, cls)
         if t[2] in ("max", "min", "maxp", "minp", "bounds_above", "bounds_below"):
             try:
                 (k0, a0), _ = parse_expr(t[3:], n)
@@ -203,7 +220,9 @@ def classify(lines, idx, verdict):
         lastq = [l for l in lines[:idx] if l.startswith("q " + t[3] + " ")][-1].split()
         site = "%s::%s" % (cls, METHOD.get(lastq[2], lastq[2]))
         tags.append("during_observation")
+        if t[1] == "nan": tags.append("nan_entry")
     elif t[0] in ("res", "exc", "note"):
+        if t[0] == "note" and t[1] == "nan": tags.append("nan_entry")
         if op is None:
             site = cls + "::?"
         elif op[0] == "new":
@@ -216,6 +235,8 @@ def classify(lines, idx, verdict):
             if how == "grid" and int(op[5]) > 1: tags.append("grid_has_direction")
             if how == "from": tags.append("source_" + op[4])
             tags += arg_number_tags(op[4:], tname, tags)
+            tags += overflow_tags([], op[4:], tname, cls)
+            if "T_native_int" in tags and "native_int_negative_coefficient" in tags: tags.append(cls + "_native_int_negative_coefficient")
         else:
             name = op[2]
             site = "%s::%s" % (cls, METHOD.get(name, name))
@@ -229,6 +250,7 @@ def classify(lines, idx, verdict):
                 tags += ["arg_" + f for f in status_flags(lines, opi, op[3])]
                 if op[3] == op[1]: tags.append("aliased")
             if n == 0: tags.append("zero_dim")
+            if n == 0 and "arg_EM" in tags: tags.append("zero_dim_arg_marked_empty")
             rr = rows_of_slot(lines, opi, op[1])
             if rr is not None:
                 if n >= 2 and any(r[0] != "=" and len(nonzero(r[2])) == 1 for r in rr): tags.append("recv_unary_inequality_dim_ge_2")
@@ -242,6 +264,9 @@ def classify(lines, idx, verdict):
                         tags.append("exact_union_denied_open_bound_involved")
             if "lhs_ge2_vars" in tags and "recv_SPR" in tags: tags.append("lhs_ge2_vars_recv_reduced")
             tags += arg_number_tags(op[3:], tname, tags)
+            r2x = rows_of_slot(lines, opi, op[3]) if len(op) == 4 else None
+            tags += overflow_tags([rr, r2x], op[3:], tname, cls)
+            if "T_native_int" in tags and "native_int_negative_coefficient" in tags: tags.append(cls + "_native_int_negative_coefficient")
         if t[0] == "res" and t[3] != "cons":
             tags.append("reading_" + t[3])
     elif t[0] in ("arg", "obs"):
@@ -296,6 +321,25 @@ def arg_number_tags(args, tname, tags):
     if "T_native_int" in tags and any(v < 0 for v in ints):
         out.append("native_int_negative_coefficient")
     return out
+
+
+def overflow_tags(rows_list, args, tname, cls):
+    """bounded T: |coefficient| * |bound| or a bound itself can leave the finite range of T"""
+    tshort = tname.split("_", 1)[1]
+    hi = LIMITS.get(tshort)
+    if hi is None: return []
+    big = 0
+    for rows in rows_list:
+        for rel, k, a in rows or []:
+            nz = nonzero(a)
+            if nz: big = max(big, abs(k) // max(1, abs(a[nz[0]])))
+    ints = [1]
+    for a in args:
+        try: ints.append(abs(int(a)))
+        except ValueError: pass
+    if big * 4 >= hi or max(ints) * 4 >= hi or (big + 1) * max(ints) * 2 >= hi:
+        return ["%s_%s_overflow_reachable" % (cls, type_class(tshort))]
+    return []
 
 
 def status_flags(lines, upto, slot):
